@@ -35,7 +35,12 @@ func mountedPathToCaller(p, name, mountSubPath string) string {
 		return p
 	case strings.HasSuffix(mountSubPath, "/"+name):
 		// sub-directory view: mountSubPath is base/name, strip base
-		return strings.TrimPrefix(p, strings.TrimSuffix(mountSubPath, name))
+		base := strings.TrimSuffix(mountSubPath, "/"+name)
+		if p == base {
+			// the failing path is the base directory itself (e.g. it is not a directory): the root of the view
+			return "."
+		}
+		return strings.TrimPrefix(p, base+"/")
 	case name == ".":
 		// sub-directory view of its own root: mountSubPath is base
 		if p == mountSubPath {
